@@ -638,7 +638,8 @@ class Ctx:
     # -- finishing --
     def finish(self):
         wall = time.time() - self.t0
-        distinct = len({(i['rule'], i['where'], i['construct'])
+        distinct = len({(i['rule'], i['where'], i['construct'],
+                         i.get('note', '') if i['verdict'] == 'holds' else '')
                         for i in self.instances})
         samples = []
         seen_rules = {}
